@@ -29,6 +29,7 @@ void __real_free(void *);
 int __real_pthread_create(pthread_t *, const pthread_attr_t *, void *(*)(void *), void *);
 int __real_pthread_join(pthread_t, void **);
 int __real_timerfd_create(int, int);
+int __real_timerfd_settime(int, int, const struct itimerspec *, struct itimerspec *);
 
 /* ------------------------------------------------------------------ sink */
 #define MAXT 33
@@ -72,6 +73,7 @@ static int tid_now(void) {
 	return vh_tid;
 }
 /* object id: -1 NULL, 0..N thread (N = pvt), -2 pool, 1000+id harness message (id < 90000), 100000+k other */
+static const void *g_evo_base; static size_t g_evo_bytes, g_evo_stride = 1; /* event objects (set in main) */
 static long oid_locked(const void *p) {
 	if (p == NULL) return -1;
 	if (g_tp != NULL) {
@@ -80,6 +82,8 @@ static long oid_locked(const void *p) {
 		if (t >= &g_tp->threads[0] && t <= &g_tp->threads[g_n]) return (long)(t - &g_tp->threads[0]);
 	}
 	if ((const hmsg_t *)p >= &g_msg[0] && (const hmsg_t *)p < &g_msg[MAXMSG]) return 1000 + ((const hmsg_t *)p)->id;
+	if ((const char *)p >= (const char *)g_evo_base && (const char *)p < (const char *)g_evo_base + g_evo_bytes)
+		return 200000 + (long)(((const char *)p - (const char *)g_evo_base) / (long)g_evo_stride);
 	for (int i = 0; i < g_nobj; i++) if (g_obj[i] == p) return 100000 + i;
 	if (g_nobj < MAXOBJ) { g_obj[g_nobj] = p; return 100000 + g_nobj++; }
 	return 199999;
@@ -162,7 +166,10 @@ void liblcb_verif_point(const char *label, const void *a, const void *b, uintptr
 		logf_locked("\"e\":\"%s\",\"i\":%ld,\"d\":%ld,\"u\":%ld,\"v\":%lu", label, vh_cur_inst, oid_locked(a), oid_locked(b), (unsigned long)val);
 	} else if (0 == strcmp(label, "recv.run")) {
 		logf_locked("\"e\":\"recv.run\",\"q\":%ld,\"u\":%ld,\"c\":\"%s\"", oid_locked(a), oid_locked(b), cbname((const void *)val));
-	} else if (0 == strcmp(label, "loop.gate") || 0 == strcmp(label, "loop.cb") || 0 == strcmp(label, "ev.post")) {
+	} else if (0 == strcmp(label, "loop.gate")) {
+		logf_locked("\"e\":\"loop.gate\",\"a\":%ld,\"b\":%ld,\"dis\":%d,\"set\":%d", oid_locked(a), oid_locked(b),
+		    (int)(((uint64_t)val >> 63) & 1), (((uint64_t)val & ~(1ull << 63)) != 0));
+	} else if (0 == strcmp(label, "loop.cb") || 0 == strcmp(label, "ev.post")) {
 		logf_locked("\"e\":\"%s\",\"a\":%ld,\"b\":%ld,\"vlo\":%lu,\"vhi\":%lu", label, oid_locked(a), oid_locked(b),
 		    (unsigned long)(val & 0xffffff), (unsigned long)((uint64_t)val >> 32));
 	} else if (0 == strcmp(label, "wait.join")) {
@@ -264,10 +271,27 @@ int __wrap_timerfd_create(int clk, int flags) {
 	if (fd >= 0) led_add_fd(fd);
 	return fd;
 }
+int __wrap_timerfd_settime(int fd, int flags, const struct itimerspec *nv, struct itimerspec *ov) {
+	int rc = __real_timerfd_settime(fd, flags, nv, ov);
+	int err = errno;
+	/* seconds/nanoseconds as decimal strings: they exceed what TLC integers hold; compared outside TLC */
+	LOGEV("\"e\":\"sys.settime\",\"abs\":%d,\"vs\":\"%llu\",\"vn\":\"%llu\",\"is\":\"%llu\",\"in\":\"%llu\",\"rc\":%d,\"err\":%d",
+	    (flags & TFD_TIMER_ABSTIME) ? 1 : 0, (unsigned long long)nv->it_value.tv_sec, (unsigned long long)nv->it_value.tv_nsec,
+	    (unsigned long long)nv->it_interval.tv_sec, (unsigned long long)nv->it_interval.tv_nsec, rc, (rc == 0) ? 0 : err);
+	errno = err;
+	return rc;
+}
+static int g_log_epctl = 0;
 int __wrap_epoll_ctl(int epfd, int op, int fd, struct epoll_event *ev) {
 	int e = fault_hit("epoll_ctl");
 	if (e) { LOGEV("\"e\":\"sys.epoll_ctl\",\"rc\":-1,\"err\":%d,\"inj\":1", e); errno = e; return -1; }
-	return __real_epoll_ctl(epfd, op, fd, ev);
+	int rc = __real_epoll_ctl(epfd, op, fd, ev);
+	if (g_log_epctl) {
+		int err = errno;
+		LOGEV("\"e\":\"sys.epoll_ctl\",\"op\":%d,\"fd\":%d,\"evs\":%u,\"rc\":%d,\"err\":%d", op, fd, ev ? ev->events : 0, rc, (rc == 0) ? 0 : err);
+		errno = err;
+	}
+	return rc;
 }
 void *__wrap_calloc(size_t n, size_t sz) {
 	int e = fault_hit("calloc");
@@ -437,11 +461,87 @@ static void do_quiesce(void) {
 	sem_destroy(&s);
 }
 
+/* ---- event registrations (C06): objects u = 0..MAXEVO-1 ---- */
+#define MAXEVO 32
+typedef struct { tp_udata_t ud; int id; int rfd, wfd; int kind; volatile int count; int beh; int beh_k; } evo_t;
+static evo_t g_evo[MAXEVO];
+enum { EB_NONE = 0, EB_DRAIN = 1, EB_DISABLE = 2, EB_DEL = 3, EB_ENABLE_AGAIN = 4 };
+static void ev_cb(tp_event_p ev, tp_udata_p ud) {
+	evo_t *o = (evo_t *)ud;
+	tpt_p cur = tpt_get_current();
+	int cnt = ++o->count;
+	LOGEV("\"e\":\"evcb\",\"u\":%d,\"ev\":%u,\"fl\":%u,\"cur\":%ld,\"cnt\":%d", o->id, (unsigned)ev->event, (unsigned)ev->flags, cur ? (long)cur->thread_num : -1L, cnt);
+	if (o->beh == EB_DRAIN) { char b[256]; while (__real_read(o->rfd, b, sizeof(b)) > 0) ; LOGEV("\"e\":\"drained\",\"u\":%d", o->id); }
+	if (o->beh_k > 0 && cnt >= o->beh_k) {
+		if (o->beh == EB_DISABLE) {
+			LOGEV("\"e\":\"call.ev\",\"u\":%d,\"op\":3,\"ev\":%u,\"fl\":0,\"ff\":0,\"thr\":%ld", o->id, (unsigned)ev->event, cur ? (long)cur->thread_num : -1L);
+			int rc = tpt_ev_enable_args1(0, ev->event, ud);
+			LOGEV("\"e\":\"ret.ev\",\"u\":%d,\"rc\":%d,\"tpd\":0", o->id, rc);
+		} else if (o->beh == EB_DEL) {
+			LOGEV("\"e\":\"call.ev\",\"u\":%d,\"op\":1,\"ev\":%u,\"fl\":0,\"ff\":0,\"thr\":%ld", o->id, (unsigned)ev->event, cur ? (long)cur->thread_num : -1L);
+			int rc = tpt_ev_del_args1(ev->event, ud);
+			LOGEV("\"e\":\"ret.ev\",\"u\":%d,\"rc\":%d,\"tpd\":0", o->id, rc);
+		}
+	}
+	perturb();
+}
+static int ev_ops(const char *op, const char *args) {
+	int u = 0, a = 0, b = 0, c = 0; unsigned long long dd = 0; unsigned ff = 0;
+	if (!strcmp(op, "evnew")) { /* evnew u kind(0 pipe-read,1 pipe-write,2 timer,3 socketpair-read) beh beh_k */
+		int kind = 0, beh = 0, bk = 0, kmin = 0;
+		sscanf(args, "%d %d %d %d %d", &u, &kind, &beh, &bk, &kmin);
+		evo_t *o = &g_evo[u]; memset(o, 0, sizeof(*o));
+		o->id = u; o->kind = kind; o->beh = beh; o->beh_k = bk; o->rfd = o->wfd = -1;
+		o->ud.cb_func = ev_cb;
+		if (kind == 0 || kind == 1) {
+			int fds[2]; if (pipe(fds) != 0) abort();
+			fcntl(fds[0], F_SETFL, O_NONBLOCK); fcntl(fds[1], F_SETFL, O_NONBLOCK);
+			o->rfd = fds[0]; o->wfd = fds[1];
+			o->ud.ident = (uintptr_t)((kind == 0) ? fds[0] : fds[1]);
+		} else if (kind == 3) {
+			int fds[2]; if (socketpair(AF_UNIX, SOCK_STREAM, 0, fds) != 0) abort();
+			fcntl(fds[0], F_SETFL, O_NONBLOCK);
+			o->rfd = fds[0]; o->wfd = fds[1]; o->ud.ident = (uintptr_t)fds[0];
+		} else {
+			o->ud.ident = (uintptr_t)(1000 + u);
+		}
+		LOGEV("\"e\":\"evnew\",\"u\":%d,\"kind\":%d,\"k\":%d", u, kind, kmin);
+		return 1;
+	}
+	if (!strcmp(op, "evadd") || !strcmp(op, "even") || !strcmp(op, "evdis") || !strcmp(op, "evdel")) {
+		/* ev<op> u thr event flags fflags data */
+		sscanf(args, "%d %d %d %d %u %llu", &u, &a, &b, &c, &ff, &dd);
+		evo_t *o = &g_evo[u];
+		int opn = !strcmp(op, "evadd") ? 0 : !strcmp(op, "evdel") ? 1 : !strcmp(op, "even") ? 2 : 3;
+		LOGEV("\"e\":\"call.ev\",\"u\":%d,\"op\":%d,\"ev\":%d,\"fl\":%d,\"ff\":%u,\"thr\":%d", u, opn, b, c, ff, a);
+		int rc;
+		if (opn == 0) rc = tpt_ev_add_args(thr(a), (uint16_t)b, (uint16_t)c, ff, dd, &o->ud);
+		else if (opn == 1) rc = tpt_ev_del_args1((uint16_t)b, &o->ud);
+		else rc = tpt_ev_enable_args((opn == 2), (uint16_t)b, (uint16_t)c, ff, dd, &o->ud);
+		LOGEV("\"e\":\"ret.ev\",\"u\":%d,\"rc\":%d,\"tpd\":%d", u, rc, (o->ud.tpdata != 0));
+		return 1;
+	}
+	if (!strcmp(op, "mkready")) { sscanf(args, "%d", &u); LOGEV("\"e\":\"mkready\",\"u\":%d", u); (void)!__real_write(g_evo[u].wfd, "x", 1); return 1; }
+	if (!strcmp(op, "drain")) { sscanf(args, "%d", &u); char bb[256]; while (__real_read(g_evo[u].rfd, bb, sizeof(bb)) > 0) ; LOGEV("\"e\":\"drained\",\"u\":%d", u); return 1; }
+	if (!strcmp(op, "peerclose")) { sscanf(args, "%d", &u); LOGEV("\"e\":\"peerclose\",\"u\":%d", u); __real_close(g_evo[u].wfd); g_evo[u].wfd = -1; return 1; }
+	if (!strcmp(op, "evfree")) { sscanf(args, "%d", &u); if (g_evo[u].rfd >= 0) __real_close(g_evo[u].rfd); if (g_evo[u].wfd >= 0) __real_close(g_evo[u].wfd); g_evo[u].rfd = g_evo[u].wfd = -1; return 1; }
+	if (!strcmp(op, "evwait")) { /* evwait u k ms: wait (bounded) until k callbacks were seen - liveness is not a race */
+		sscanf(args, "%d %d %d", &u, &a, &b);
+		for (int i = 0; i < b * 10 && g_evo[u].count < a; i++) usleep(100);
+		return 1;
+	}
+	if (!strcmp(op, "evcount")) { sscanf(args, "%d", &u); LOGEV("\"e\":\"evcount\",\"u\":%d,\"cnt\":%d", u, g_evo[u].count); return 1; }
+	if (!strcmp(op, "logepctl")) { sscanf(args, "%d", &g_log_epctl); return 1; }
+	(void)c;
+	return 0;
+}
+
 static void exec_line(const char *actor, char *line) {
 	char op[32]; int a = 0, b = 0, c = 0, d = 0; char s1[64] = "";
 	int nf = sscanf(line, "%31s", op);
 	if (nf < 1 || op[0] == '#') return;
 	const char *args = line + strlen(op);
+	if (ev_ops(op, args)) return;
 	if (!strcmp(op, "pool")) { /* pool N pipesz */
 		sscanf(args, "%d %d", &a, &b);
 		tp_settings_t s; tp_settings_def(&s);
@@ -587,6 +687,7 @@ int main(int argc, char **argv) {
 	signal(SIGPIPE, SIG_IGN);
 	signal(SIGSEGV, on_crash); signal(SIGBUS, on_crash);
 	g_log_cap = 1u << 22; g_log = malloc(g_log_cap);
+	g_evo_base = g_evo; g_evo_bytes = sizeof(g_evo); g_evo_stride = sizeof(g_evo[0]);
 	FILE *f = fopen(argv[1], "r");
 	if (!f) { perror("scenario"); return 2; }
 	char line[512];
